@@ -607,3 +607,50 @@ def wrapped_array_presence(sx, p):
         same = (got is None or got == []) if n == 0 else sx.And(len(got) == n, *[sx.eq(a, b) for a, b in zip(got, vals)])
         return sx.And(ok, same)
     return (not ok) and is_client_validation_fault(out.fault)
+
+
+# ---------------------------------------------------------------- empty_is_none: the empty string is null
+EIN_GRID = [('nillable', Unicode(empty_is_none=True), True), ('nillable=False', Unicode(empty_is_none=True, nillable=False), False),
+            ("pattern='a+'", Unicode(empty_is_none=True, pattern='a+'), True), ('min_len=2', Unicode(empty_is_none=True, min_len=2), True),
+            ("values=['a']", Unicode(empty_is_none=True, values=['a']), True),
+            ('Integer(empty_is_none)', Integer(empty_is_none=True, nillable=False), False)]
+EIN_HOLDERS = {}
+
+
+def _ein_holder(i):
+    if i not in EIN_HOLDERS:
+        class Holder(ComplexModel):
+            __namespace__ = 'tns'
+            __type_name__ = 'EinHolder%d' % i
+            _type_info = [('x', EIN_GRID[i][1]), ('y', Unicode)]
+        EIN_HOLDERS[i] = Holder
+    return EIN_HOLDERS[i]
+
+
+@harness('C05', params=[(i, fam) for i in range(len(EIN_GRID)) for fam in ('xml', 'json', 'http')],
+         label=lambda p: '%s %s' % (EIN_GRID[p[0]][0], p[1]),
+         functions=['spyne.protocol.dictdoc.hier.HierDictDocument._from_dict_value', 'spyne.protocol._inbase.InProtocolBase.from_unicode',
+                    'spyne.protocol.xml.XmlDocument.unicode_from_element'],
+         bounds={'text': 'a member of a type with empty_is_none=True sent as the empty string or as a symbolic text of 1..2 characters '
+                         'over {a b}; nillable or not, with and without other facets'})
+def empty_is_none_text(sx, p):
+    """with empty_is_none the empty string is null in every protocol family: accepted iff the type is nillable - whatever
+    other facets it declares - and delivered as None"""
+    i, fam = p
+    name, T, nillable = EIN_GRID[i]
+    H = _ein_holder(i)
+    L = sx.choose('len', [0, 1, 2])
+    text = sx.text('t', L, alphabet='ab') if L else u''
+    if fam == 'xml':
+        kids = [mk_element(sx, '{tns}x', text=(text if L else None)), mk_element(sx, '{tns}y', text='s')]
+        out = run_soft(lambda: XML.from_element(CTX, H, mk_element(sx, '{tns}h', children=kids)))
+    elif fam == 'json':
+        out = run_soft(lambda: JSON._doc_to_object(CTX, H, {'x': text, 'y': 's'}, JSON.validator))
+    else:
+        out = run_soft(lambda: HTTP.simple_dict_to_object(CTX, sx.mkdict([('x', [text]), ('y', ['s'])]), H, HTTP.validator))
+    sx.observe('accepted', out.accepted)
+    if L:
+        sx.outside('non-empty texts are judged by the string and integer harnesses')
+    if out.accepted:
+        return nillable and out.value.x is None
+    return (not nillable) and is_client_validation_fault(out.fault)
